@@ -13,7 +13,9 @@ import (
 	"strings"
 
 	"github.com/Comcast/rulio/core"
+	"github.com/Comcast/rulio/sys"
 
+	"verif/lib/cronner"
 	"verif/lib/drv"
 	"verif/lib/gen"
 	"verif/lib/ref"
@@ -59,9 +61,47 @@ func str(b ref.B, v string) string {
 	return fmt.Sprint(x)
 }
 
+// systemWrites: through sys.System (which wires cron hooks to every state) several
+// concurrently executing actions of one event write facts with Env.AddFact: every
+// write must land, exactly once per execution, and the process must survive.
+func systemWrites(r *rep.Report, e rep.Env) {
+	rounds := e.Pick(30, 200)
+	for round := 0; round < rounds; round++ {
+		s, err := drv.NewSys(drv.SysOpts{Linear: round%2 == 1, TTL: sys.Forever}, cronner.New(true))
+		if err != nil {
+			r.Violate("", "cannot build system: "+err.Error(), nil)
+			return
+		}
+		rule := `{"when":{"pattern":{"k":"go","arr":["?x"]}},"actions":[{"code":"Env.AddFact('a0-'+x,{by:'a0',x:x}); 'a0|'+x"},{"code":"Env.AddFact('a1-'+x,{by:'a1',x:x}); 'a1|'+x"}]}`
+		if out := drv.SysDo(s, drv.Req{Op: "addRule", Loc: "W", Id: "w", Doc: rule}); !strings.HasPrefix(out, "id=") {
+			r.Violate("", "AddRule failed: "+out, nil)
+			continue
+		}
+		r.Journal(rep.J{"system_writes_round": round})
+		out := drv.SysDo(s, drv.Req{Op: "event", Loc: "W", Doc: `{"k":"go","arr":["s1","s2","x"]}`})
+		want := "a0|s1,a0|s2,a0|x,a1|s1,a1|s2,a1|x"
+		r.Case(true, fmt.Sprint("syswrites", e.BatchSeed(), round))
+		r.Count("system_write_events", 1)
+		wit := rep.J{"via": "sys.System", "rule": rule, "values": out}
+		if out != want {
+			r.Violate("", "concurrent writing actions of one event through the System: values differ from the 6 expected executions", wit)
+			continue
+		}
+		for _, a := range []string{"a0", "a1"} {
+			for _, x := range []string{"s1", "s2", "x"} {
+				if got := drv.SysDo(s, drv.Req{Op: "getFact", Loc: "W", Id: a + "-" + x}); !strings.Contains(got, `"by":"`+a+`"`) {
+					wit["missing"] = a + "-" + x
+					r.Violate("", "a fact written by an action execution is missing: "+got, wit)
+				}
+			}
+		}
+	}
+}
+
 func main() {
 	e := rep.GetEnv()
 	r := rep.New(e)
+	systemWrites(r, e)
 	nWorlds := e.Pick(150, 1000)
 	arrs := [][]interface{}{{"s1"}, {"s1", "s2"}, {"s1", "s2", "x"}, {}}
 	for wi := 0; wi < nWorlds; wi++ {
